@@ -3,6 +3,7 @@
 package main
 
 import (
+	"runtime/pprof"
 	"flag"
 	"fmt"
 	"os"
@@ -35,6 +36,12 @@ func main() {
 	verbose := flag.Bool("v", false, "print every obligation")
 	mutant := flag.String("mutant", "", "apply the named in-memory mutant before checking (self-test/debug)")
 	flag.Parse()
+	if pf := os.Getenv("PLUSH_PROF"); pf != "" {
+		if f, err := os.Create(pf); err == nil {
+			pprof.StartCPUProfile(f)
+			defer pprof.StopCPUProfile()
+		}
+	}
 	if *tier == "" {
 		*tier = "quick"
 	}
@@ -182,6 +189,7 @@ func main() {
 		fmt.Printf("%s %s: %d rule(s), %d obligation(s), %d discharged, %d known finding(s), %d violation(s), %d function(s) analysed, %.1fs\n",
 			id, *tier, len(first.order), len(first.obls), dis, len(firstRes.Known), len(viol), len(first.funcs), time.Since(start).Seconds())
 	}
+	pprof.StopCPUProfile()
 	os.Exit(exit)
 }
 
